@@ -242,6 +242,9 @@ func decodeSteps(f *ast.File) ([]string, [][2]string, error) {
 	if fd == nil {
 		return nil, nil, fmt.Errorf("DecodeConfig not found")
 	}
+	if err := normaliseDecode(f, fd); err != nil {
+		return nil, nil, err
+	}
 	var toks []string
 	var pairs [][2]string
 	for _, st := range fd.Body.List {
@@ -329,4 +332,131 @@ func decodeSteps(f *ast.File) ([]string, [][2]string, error) {
 		}
 	}
 	return toks, pairs, nil
+}
+
+// calleeOf returns the printed callee of a call expression ("os.Open", "X.Stat" with the receiver
+// abstracted to X for method calls on a local).
+func calleeOf(e ast.Expr) string {
+	c, ok := e.(*ast.CallExpr)
+	if !ok {
+		return ""
+	}
+	if sel, ok := c.Fun.(*ast.SelectorExpr); ok {
+		if id, ok := sel.X.(*ast.Ident); ok {
+			switch id.Name {
+			case "os", "filepath", "json", "mapstructure", "time", "strings", "sort":
+				return id.Name + "." + sel.Sel.Name
+			}
+		}
+		return "X." + sel.Sel.Name
+	}
+	return exprString(c.Fun)
+}
+
+// normaliseRead renames the parameter and the locals of ReadConfigPaths to the names the
+// tokeniser is written in (roles by definition) and inlines string constants.
+func normaliseRead(f *ast.File, fd *ast.FuncDecl) error {
+	inlineConsts(f, fd)
+	pn := paramNames(fd)
+	if len(pn) != 1 {
+		return fmt.Errorf("ReadConfigPaths signature %s", exprString(fd.Type))
+	}
+	m := map[string]string{pn[0]: "paths"}
+	err := defineRoles(fd, func(rhs ast.Expr, i int) string {
+		switch calleeOf(rhs) {
+		case "new":
+			if exprString(rhs) == "new(Config)" && i == 0 {
+				return "result"
+			}
+		case "os.Open":
+			return []string{"f", "err"}[i%2]
+		case "X.Stat":
+			return []string{"fi", "err"}[i%2]
+		case "X.Readdir":
+			return []string{"contents", "err"}[i%2]
+		case "DecodeConfig":
+			return []string{"config", "err"}[i%2]
+		case "filepath.Join":
+			if i == 0 {
+				return "subpath"
+			}
+		}
+		return ""
+	}, m)
+	if err != nil {
+		return err
+	}
+	ast.Inspect(fd.Body, func(x ast.Node) bool {
+		if rs, ok := x.(*ast.RangeStmt); ok && rs.Value != nil {
+			if id, ok := rs.X.(*ast.Ident); ok {
+				if v, ok := rs.Value.(*ast.Ident); ok {
+					switch {
+					case id.Name == pn[0]:
+						m[v.Name] = "path"
+					case m[id.Name] == "contents":
+						m[v.Name] = "fi"
+					}
+				}
+			}
+		}
+		return true
+	})
+	if err := checkRename(fd, m); err != nil {
+		return err
+	}
+	renameIdents(fd, m)
+	return nil
+}
+
+// normaliseDecode does the same for DecodeConfig.
+func normaliseDecode(f *ast.File, fd *ast.FuncDecl) error {
+	inlineConsts(f, fd)
+	pn := paramNames(fd)
+	if len(pn) != 1 {
+		return fmt.Errorf("DecodeConfig signature %s", exprString(fd.Type))
+	}
+	m := map[string]string{pn[0]: "r"}
+	ast.Inspect(fd.Body, func(x ast.Node) bool {
+		if ds, ok := x.(*ast.DeclStmt); ok {
+			if gd, ok := ds.Decl.(*ast.GenDecl); ok && gd.Tok == token.VAR && len(gd.Specs) == 1 {
+				if vs, ok := gd.Specs[0].(*ast.ValueSpec); ok && len(vs.Names) == 1 && vs.Type != nil && len(vs.Values) == 0 {
+					switch exprString(vs.Type) {
+					case "any", "interface{}":
+						m[vs.Names[0].Name] = "raw"
+						vs.Type = ast.NewIdent("any")
+					case "mapstructure.Metadata":
+						m[vs.Names[0].Name] = "md"
+					case "Config":
+						m[vs.Names[0].Name] = "result"
+					}
+				}
+			}
+		}
+		return true
+	})
+	err := defineRoles(fd, func(rhs ast.Expr, i int) string {
+		switch calleeOf(rhs) {
+		case "json.NewDecoder":
+			if i == 0 {
+				return "dec"
+			}
+		case "mapstructure.NewDecoder":
+			return []string{"msdec", "err"}[i%2]
+		case "time.ParseDuration":
+			return []string{"dur", "err"}[i%2]
+		case "X.Decode":
+			if i == 0 {
+				return "err"
+			}
+		}
+		return ""
+	}, m)
+	if err != nil {
+		return err
+	}
+	if err := checkRename(fd, m); err != nil {
+		return err
+	}
+	renameIdents(fd, m)
+	return nil
 }
